@@ -39,6 +39,10 @@ CLAIMED["C06"] = ("integer slice of format_table_constructor from the MIR (mirsy
     "bounded symbolic model checking of the layout decision that reads the input layout: for <=3 fields, widths < 2^16, any shape/indent/column width: canonical-separator inputs are a fixed point, multi-line is a fixed point, the arithmetic cannot panic; arbitrary separator spacing is NOT stable (known finding F5)",
     "trusts rustc's MIR printer, mirsym, z3/cvc5; all other trial-format heuristics and the blank-line fold are outside the claim", "5/C06")
 
+CLAIMED["C01"] = ("mirsym over check_stmt_requires_semicolon (all statement variants x next statements, both feature sets), format_block (required => Some(;)), is_brackets_string vs a leftmost-token oracle, format_index/format_field padding, format_token comment newline; C05 composer for `- -`; z3; source replay",
+    "bounded symbolic model checking of four named output-breaking mechanisms only (the property as a whole - parser x printer - is NOT claimed): `;` before `(`, `--` from nested minus, `[ [[`, line comment followed by a newline",
+    "trusts rustc's MIR printer, mirsym, the parser contract that Prefix::Expression holds a parenthesised expression, z3; keys nested deeper than 3 wrappers and all other ways to produce invalid output are outside", "5/C01")
+
 NOT_YET = {}
 
 NA = {
